@@ -93,13 +93,15 @@ unsafe impl GlobalAlloc for CountingAlloc {
 fn alloc_death(size: usize, live: usize) -> ! {
     let bt = std::backtrace::Backtrace::force_capture().to_string();
     let (origin, client) = sites_from_backtrace(&bt);
+    let caller = caller_from_backtrace(&bt).unwrap_or_default();
     let line = format!(
-        "A {} {} {} {}\t{}\n",
+        "A {} {} {} {}\t{}\t{}\n",
         CUR_RUN.load(Ordering::SeqCst),
         size,
         live,
         origin.unwrap_or_else(|| "?".into()),
-        client.unwrap_or_default()
+        client.unwrap_or_default(),
+        caller
     );
     unsafe {
         libc::write(1, line.as_ptr() as *const libc::c_void, line.len());
@@ -239,6 +241,39 @@ pub fn sites_from_backtrace(bt: &str) -> (Option<String>, Option<String>) {
         .find(|(f, _)| *f != of && !f.ends_with("/utils.rs"))
         .map(|(f, l)| render_site(f, *l));
     (Some(render_site(&of, ol)), client)
+}
+
+/// The calamine frame that called the origin frame (any file): lets a known allocation be
+/// recognised when the allocating statement was moved into a helper function.
+pub fn caller_from_backtrace(bt: &str) -> Option<String> {
+    let mut frames: Vec<(String, u32)> = Vec::new();
+    for l in bt.lines() {
+        let t = l.trim_start();
+        if let Some(rest) = t.strip_prefix("at ") {
+            if rest.starts_with(REPO_SRC) {
+                let mut it = rest.rsplitn(3, ':');
+                let _col = it.next();
+                let line = it.next().and_then(|x| x.parse::<u32>().ok());
+                let file = it.next();
+                if let (Some(file), Some(line)) = (file, line) {
+                    frames.push((file.to_string(), line));
+                }
+            }
+        }
+    }
+    let rendered: Vec<String> = frames.iter().map(|(f, l)| render_site(f, *l)).collect();
+    let helper = |f: &str, site: &str| -> bool {
+        let mut it = site.splitn(3, "::");
+        let (_file, func, text) = (it.next(), it.next().unwrap_or(""), it.next().unwrap_or(""));
+        f.ends_with("/utils.rs") || func == "?" || func == "<derive>" || text.starts_with("#[derive")
+    };
+    let oi = frames.iter().zip(&rendered).position(|((f, _), s)| !helper(f, s))?;
+    let ofn = site_fn(&rendered[oi]);
+    frames[oi + 1..]
+        .iter()
+        .zip(&rendered[oi + 1..])
+        .find(|((f, _), s)| !helper(f, s) && site_fn(s) != ofn)
+        .map(|(_, s)| s.clone())
 }
 
 fn with_source<T>(file: &str, f: impl FnOnce(&[String]) -> T) -> T {
